@@ -1,6 +1,8 @@
 package harness
 
 import (
+	"bytes"
+	"compress/flate"
 	"unsafe"
 	"fmt"
 	"net/url"
@@ -42,6 +44,9 @@ func mpBody(c mpCase) vsched.Body {
 		o.SetAllowEIO3(true)
 		o.SetMaxHttpBufferSize(c.limit)
 		o.SetTransports(types.NewSet("polling", "websocket", "webtransport"))
+		if c.carrier == "websocket-deflated" {
+			o.SetPerMessageDeflate(&types.PerMessageDeflate{Threshold: 0})
+		}
 		w := NewWorld(x, o)
 		id := c.String()
 		rel := "over"
@@ -185,7 +190,7 @@ func mpBody(c mpCase) vsched.Body {
 				wsPipe = ws.pipe()
 				break
 			} else {
-				ws = w.DialWS(4, "", false, false, "")
+				ws = w.DialWS(4, "", false, c.carrier == "websocket-deflated", "")
 				x.Settle()
 				if !ws.Ready() || len(w.Socks) != 2 {
 					x.Fail("setup: websocket handshake failed (%s)", id)
@@ -196,6 +201,20 @@ func mpBody(c mpCase) vsched.Body {
 			wsPipe = ws.pipe()
 			payload := []byte("4" + textOfLen(c.size-1))
 			vsched.GoNamed("client", func() {
+				if c.carrier == "websocket-deflated" {
+					// one permessage-deflate compressed frame (RSV1): a few bytes on the wire, c.size bytes once inflated
+					var zb bytes.Buffer
+					zw, _ := flate.NewWriter(&zb, flate.BestCompression)
+					zw.Write(payload)
+					zw.Flush()
+					z := bytes.TrimSuffix(zb.Bytes(), []byte{0, 0, 0xff, 0xff})
+					f := maskedFrame(1, true, z)
+					f[0] |= 0x40
+					if p := ws.pipe(); p != nil {
+						p.ClientWrite(f)
+					}
+					return
+				}
 				if c.carrier == "websocket-fragmented" {
 					frag := int(c.limit/2) + 1
 					ws.SendFragmented(1, payload, frag)
@@ -317,7 +336,7 @@ func init() {
 						}
 					}
 				}
-				for _, car := range []string{"websocket", "websocket-fragmented", "websocket-upgraded", "websocket-early", "webtransport", "webtransport16", "webtransport64"} {
+				for _, car := range []string{"websocket", "websocket-fragmented", "websocket-upgraded", "websocket-early", "websocket-deflated", "webtransport", "webtransport16", "webtransport64"} {
 					if car == "websocket-fragmented" && limit < 4 {
 						continue
 					}
